@@ -166,6 +166,29 @@ Definition concat_c {A B} (ds : list (cds A B)) : cds A B :=
   let r := shifted_rows 0 0 ds in
   mk_cds (fst r) (snd r) (flat_map pvals ds) (flat_map svals ds).
 
+(* ------------------------------------------------------------------ the law of the property's first sentence, per group
+   raw = one row of original_pairs (positions of the collocated points in the original data), stored = the original
+   positions of the points kept in the compact dataset (dataset.isel(collocation=original_indices)), idx = the row of
+   Collocations/pairs: the compact dataset holds exactly the collocated points, each once; the pairs are valid indices,
+   every stored point takes part in a pair, and every pair still names its original point.  The ORDER of the stored
+   points is not fixed (first appearance in the code as it is; sorted would do as well, with the pairs that belong to it). *)
+Definition consistent (raw stored idx : list nat) : Prop :=
+  NoDup stored /\ (forall v, In v stored <-> In v raw) /\
+  length idx = length raw /\ row_ok (length stored) idx /\
+  map (fun i => nth i stored 0) idx = raw.
+
+(* the same, decided (check_compaction below evaluates exactly these tests for both groups) *)
+Definition consistentb (raw stored idx : list nat) : bool :=
+  row_okb (length stored) idx && (length idx =? length raw)
+  && forallb (fun ab => fst ab =? snd ab) (combine (gather 0 idx stored) raw)
+  && (length stored =? length (uniq raw)).
+
+(* the dataset _create_return builds from the raw pairs and the data of the two original datasets:
+   output[name] = dataset.isel(collocation=original_indices), pairs = the new indices *)
+Definition create_return {A B} (da : A) (db : B) (rawp raws : list nat) (pdata : list A) (sdata : list B) : cds A B :=
+  let cp := compact rawp in let cs := compact raws in
+  mk_cds (snd cp) (snd cs) (gather da (fst cp) pdata) (gather db (fst cs) sdata).
+
 (* ------------------------------------------------------------------ helpers for the correspondence
    (evaluated by vm_compute on generated cases; numbers cross the boundary as Z) *)
 Definition zs (l : list nat) : list Z := map Z.of_nat l.
